@@ -40,7 +40,7 @@ CONTRACTS.append(Contract(
     raises={'KeyError': Raises()},
 ))
 
-PROP = Obj('CIMProperty', _name=Str, _propagated=Opt(Bool), _class_origin=Opt(Str), _qualifiers=Ref('NocaseDict'))
+PROP = Obj('CIMProperty', _name=Str, _propagated=Opt(Bool), _class_origin=Str, _qualifiers=Ref('NocaseDict'))
 CLS = Obj('CIMClass', _classname=Str)
 SELFR = Obj('MainProvider')
 CONTRACTS.append(Contract(
@@ -61,6 +61,6 @@ CONTRACTS.append(Contract(
     opaque=['_resolve_qualifiers'],
     ensures=[('marked-propagated', 'new_obj._propagated is True'),
              ('class-origin-of-the-ancestor-element',
-              'new_obj._class_origin is inherited_obj._class_origin or new_obj._class_origin == inherited_obj._class_origin')],
+              'new_obj._class_origin == inherited_obj._class_origin')],
     raises={},
 ))
